@@ -11,6 +11,7 @@ from fractions import Fraction
 from hypothesis import strategies as st
 from hypothesis.stateful import RuleBasedStateMachine, initialize, rule
 
+from ..gen import rarely
 from ..common import HarnessError, Violation, hyp_run_machine, import_auditok, lib_guard, tmpdir
 from . import c10
 
@@ -34,13 +35,17 @@ RULE = (
     "(not claimed). Non-trivial = >= 2 reads and (a position change, a read crossing the end, or a reopen)."
 )
 MUST_HIT = ["millisecond_sweep", "negative_position_bps>1", "past_end_buffer", "past_end_raw", "past_end_wav", "past_end_stdin",
-            "read_unopened", "index_error", "reopen_buffer", "read_all_remaining", "read_zero"]
+            "read_unopened", "index_error", "reopen_buffer", "read_all_remaining", "read_zero", "raw_named_pipe",
+            "second_source_on_same_stdin", "chunk_request_above_1MiB_short", "chunk_request_above_1MiB_met"]
 ASSUMPTIONS = [
     "read(0) must return None (a chunk of min(0, remaining) = 0 samples, and never b'') and leave the cursor where it is",
     "what a raw/wav/stdin source does after close()+open() is not claimed by the statement: those kinds are never reopened",
+    "a raw source may be given the path of a named pipe (a file produced while it is read): same chunks as a regular file",
+    "a second StdinAudioSource made after the first one was dropped reads on from where the standard input is",
 ]
 BOUNDS = {"quick": dict(n=250, steps=30), "thorough": dict(n=5000, steps=50)}
 KINDS = ("buffer", "raw", "wav", "stdin")
+MORE_KINDS = ("pipe", "fifo")
 _ctr = [0]
 
 
@@ -68,10 +73,16 @@ class Interp:
                 c = dict(cfg, kind=self.kind + "_lazy", rawname=cfg.get("rawname", ".raw"))
                 path, _kw, self.paths = c10.make_input(c, self.data)
                 self.src = RawAudioSource(path, sr, sw, ch) if self.kind == "raw" else WaveAudioSource(path)
+            elif self.kind == "fifo":
+                # a raw "file" that is a named pipe, produced while it is read
+                c = dict(cfg, kind="raw_fifo", B=max(cfg.get("chunks", [3])[0], 2))
+                path, _kw, self.paths = c10.make_input(c, self.data)
+                self.src = RawAudioSource(path, sr, sw, ch)
             elif self.kind == "stdin":
                 old = sys.stdin
+                self.fake = _FakeStdin(self.data)
                 try:
-                    sys.stdin = _FakeStdin(self.data)
+                    sys.stdin = self.fake
                     self.src = StdinAudioSource(sr, sw, ch)
                 finally:
                     sys.stdin = old
@@ -91,6 +102,7 @@ class Interp:
         from .c09 import _PipeStdin
 
         pipe = _PipeStdin(self.data, cfg.get("chunks") or [3])
+        self.fake = pipe
         old = sys.stdin
         try:
             sys.stdin = pipe
@@ -120,7 +132,9 @@ class Interp:
         if name in ("pos", "pos_s", "pos_ms", "rewind", "get_pos"):
             return self.kind == "buffer"
         if name == "read_all":
-            return self.kind in ("buffer", "raw", "wav")
+            return self.kind in ("buffer", "raw", "wav", "fifo")
+        if name == "renew":
+            return self.kind in ("stdin", "pipe")
         if name == "open":
             # file / stdin kinds are never reopened
             return self.kind == "buffer" or not self.closed_once
@@ -155,12 +169,16 @@ class Interp:
                         f"{' (b\"\")' if got == b'' else ''}, expected "
                         f"{'None' if want is None else 'samples [' + str(self.cur) + ',' + str(self.cur + take) + ')'}", case)
                 self.nreads += 1
+                if n is not None and n * self.bps > (1 << 20) and rem:
+                    self.classes.add("chunk_request_above_1MiB_" + ("met" if n <= rem else "short"))
                 if n is None or n < 0:
                     self.classes.add("read_all_remaining")
                 elif n == 0:
                     self.classes.add("read_zero")
                 elif n >= rem:
-                    self.classes.add("past_end_" + ("stdin" if self.kind == "pipe" else self.kind))
+                    self.classes.add("past_end_" + {"pipe": "stdin", "fifo": "raw"}.get(self.kind, self.kind))
+                    if self.kind == "fifo":
+                        self.classes.add("raw_named_pipe")
                     if self.nreads >= 2:
                         self.interesting = True
                 self.cur += take
@@ -180,6 +198,23 @@ class Interp:
                     self.cur = 0
                 if src.is_open():
                     raise Violation("is_open() True after close()", case)
+            elif name == "renew":
+                # the program is done with this source object and makes a new one on the same standard
+                # input: the stream goes on where it is (whatever the first one was: open, closed, read or not)
+                import gc
+
+                self.src = src = None
+                gc.collect()
+                old = sys.stdin
+                try:
+                    sys.stdin = self.fake
+                    self.src = StdinAudioSource(self.cfg["sr"], self.cfg["sw"], self.cfg["ch"])
+                finally:
+                    sys.stdin = old
+                self.open = False
+                self.closed_once = False
+                self.classes.add("second_source_on_same_stdin")
+                self.interesting = True
             elif name == "rewind":
                 src.rewind()
                 self.cur = 0
@@ -276,13 +311,24 @@ def check_case(case, rec):
 
 
 @st.composite
-def config(draw, kinds=KINDS):
+def config_small(draw, kinds=KINDS):
     return dict(kind=draw(st.sampled_from(kinds)), sr=draw(st.sampled_from([8, 10, 100, 1000, 16000, 44100])),
                 sw=draw(st.sampled_from([1, 2, 4])), ch=draw(st.integers(1, 3)),
                 N=draw(st.one_of(st.integers(0, 40), st.integers(0, 40), st.sampled_from([1400, 2100, 4096, 5000]))),
                 rawname=draw(st.sampled_from([".raw", ".pcm", "", ".bin"])),
                 salt=draw(st.integers(0, 10**6)),
                 chunks=draw(st.lists(st.integers(1, 13), min_size=1, max_size=4)))
+
+
+@st.composite
+def config(draw, kinds=KINDS):
+    cfg = draw(config_small(kinds))
+    if cfg["kind"] in ("stdin", "raw", "fifo", "pipe") and draw(rarely(12)):
+        # one or two MiB of audio (exactly, or a sample more): requests above a MiB, met or cut short by the end
+        bps = cfg["sw"] * cfg["ch"]
+        cfg["N"] = draw(st.sampled_from([1 << 20, 2 << 20])) // bps + draw(st.sampled_from([0, 0, 1]))
+        cfg["chunks"] = [60000, 65536, 4099]
+    return cfg
 
 
 def make_machine(kinds):
@@ -320,6 +366,19 @@ def make_machine(kinds):
         @rule()
         def close(self):
             self.it.apply(["close"])
+
+        @rule(go=rarely(4))
+        def renew(self, go):
+            if go:
+                self.it.apply(["renew"])
+                self.it.apply(["open"])
+
+        @rule(k=st.sampled_from([0, 1, 2, 3]))
+        def read_huge(self, k):
+            it = self.it
+            if it.N * it.bps >= (1 << 20) and it.kind != "wav":
+                over = (1 << 20) // it.bps + 1
+                it.apply(["read", [over, it.N - it.cur + 5, 2 * it.N, it.N][k]])
 
         @rule()
         def open(self):
@@ -371,6 +430,15 @@ def explicit_cases():
         {"cfg": dict(cfg, kind="wav"), "ops": [["open"], ["read", 11], ["read_all", -2], ["read_all", None], ["read", 3]]},
         {"cfg": dict(cfg, kind="stdin", sw=4), "ops": [["read", 1], ["open"], ["read", 5], ["read", 7], ["read", 1], ["read", 1]]},
         {"cfg": dict(cfg, kind="pipe", sw=4, ch=3, chunks=[5, 1, 7]), "ops": [["open"], ["read", 5], ["read", 6], ["read", 4], ["read", 1]]},
+        {"cfg": dict(cfg, kind="fifo", sw=2, ch=3, N=30, chunks=[5]), "ops": [["read", 2], ["open"], ["read", 5], ["read", 0], ["read", 7], ["read", 40], ["read", 1]]},
+        {"cfg": dict(cfg, kind="fifo", sw=1, ch=1, N=9, chunks=[2]), "ops": [["open"], ["read", 4], ["read_all", None], ["read", 1]]},
+        {"cfg": dict(cfg, kind="stdin", sw=2, ch=1), "ops": [["open"], ["read", 5], ["renew"], ["open"], ["read", 4], ["close"], ["renew"], ["read", 1], ["open"], ["read", 9], ["read", 1]]},
+        {"cfg": dict(cfg, kind="pipe", sw=2, ch=1, chunks=[3, 4]), "ops": [["renew"], ["open"], ["read", 5], ["renew"], ["open"], ["read", 9], ["read", 1]]},
+        {"cfg": dict(cfg, kind="stdin", sw=2, ch=1, N=1 << 19), "ops": [["open"], ["read", 600000], ["read", 1]]},
+        {"cfg": dict(cfg, kind="stdin", sw=2, ch=1, N=1 << 20), "ops": [["open"], ["read", 3 << 19], ["read", 1]]},
+        {"cfg": dict(cfg, kind="stdin", sw=2, ch=2, N=(1 << 19) + 7), "ops": [["open"], ["read", (1 << 18) + 1], ["read", 1 << 19], ["read", 1]]},
+        {"cfg": dict(cfg, kind="pipe", sw=2, ch=1, N=1 << 19, chunks=[65536, 60000]), "ops": [["open"], ["read", 600000], ["read", 1]]},
+        {"cfg": dict(cfg, kind="raw", sw=2, ch=1, N=1 << 19), "ops": [["open"], ["read", 600000], ["read", 1]]},
     ]
 
 
@@ -380,8 +448,8 @@ def jobs(tier, seed):
     for i in range(16):
         out.append({"name": f"sm-{KINDS[i % 4]}-{i}", "kinds": [KINDS[i % 4]], "seed": seed * 1000 + i,
                     "n": b["n"], "steps": b["steps"]})
-    for i in range(4 if tier == "thorough" else 2):
-        out.append({"name": f"sm-pipe-{i}", "kinds": ["pipe"], "seed": seed * 1000 + 100 + i,
+    for i in range(8 if tier == "thorough" else 4):
+        out.append({"name": f"sm-{MORE_KINDS[i % 2]}-{i}", "kinds": [MORE_KINDS[i % 2]], "seed": seed * 1000 + 100 + i,
                     "n": 300 if tier == "thorough" else 40, "steps": 20})
     return out
 
